@@ -942,6 +942,11 @@ def to_coq(case, obs):
         tr = vlib.glist(lambda ev: '(%s, %s)' % (g_ev(ev[0]), vlib.glist(lambda b: vlib.glist(g_frame, b), ev[1])),
                         obs['trace'])
         return '(CTrace %s %s %s %s)' % (g_pt(case['pt']), g_env(case['env']), g_mm(case['mm']), tr)
+    if kind == 'vol' and case.get('zero') and case.get('side') in ('spec', 'guard') and 'ws2' in obs and obs.get('ref') is None:
+        # zero family only: the repetition was absent at build time (count 0), so its body was never evaluated; under the
+        # new count the assignment itself is REJECTED by create_program (e.g. a negative window length inside the body):
+        # not an accepted assignment, the property says nothing about it.  The model side is still judged.
+        return 'CPyOnly'
     if kind == 'vol' and 'ws2' in obs and case.get('side') == 'guard':
         return '(CVolG %s %s %s %s %s)' % (g_pt(case['pt']), g_env(case['env']), g_env(case['env2']), g_mm(case['mm']),
                                            g_windows(obs['ws2']))
